@@ -21,7 +21,7 @@ RULE = ("case = generated layout (depth <= 4, 10-25 entries incl. look-alikes an
         "directories (relative and absolute -c); then one sub-directory unreadable, TMPDIR on another file system, and (35 %) one "
         "sub-directory of the source tree as the mount point of another file system (other st_dev, EXDEV across it). Non-trivial = layout with at least one out-of-scope decoy carrying a missing "
         "reference and one in-scope file; distinct = case index.")
-PROBES = ["mount_point_in_tree", "config_via_symlink", "exdev_run", "stem_siblings", "unreadable_subdir", "config_in_subdir", "symlink_to_file", "symlink_to_dir", "symlink_outside", "dir_named_rs", "lookalike_ext", "abs_source_dir", "cwd_outside",
+PROBES = ["readdir_without_types", "mount_point_in_tree", "config_via_symlink", "exdev_run", "stem_siblings", "unreadable_subdir", "config_in_subdir", "symlink_to_file", "symlink_to_dir", "symlink_outside", "dir_named_rs", "lookalike_ext", "abs_source_dir", "cwd_outside",
           "cwd_root_abs", "empty_scope", "multi_ext", "hidden_rs", "nested_depth4"]
 ASSUMPTIONS = ["source_dir itself is a real directory (not a symlink)"]
 DEADLINE = {"quick": 200, "thorough": 3000}
@@ -146,6 +146,9 @@ def gen(rng):
     if cfgdir:
         wm["cfg_name"] = cfgdir + "/Breadlog.yaml"
     seed = rng.getrandbits(40) | 1
+    if rng.random() < 0.15:
+        wm["dt_unknown"] = True      # readdir does not tell the entry type on this file system
+        tags.add("readdir_without_types")
     return wm, seed, tags, base
 
 
@@ -186,7 +189,7 @@ def evaluate(wm, seed, base, ctx, cwds=(("outside", "rel"), ("/", "abs"))):
 
     cfgname = wm.get("cfg_name", "Breadlog.yaml")
     lockpath = "proj/" + (cfgname.rsplit("/", 1)[0] + "/" if "/" in cfgname else "") + "Breadlog.lock"
-    knobs0 = {"cwd": "proj", "config_arg": "rel", "threads": 2, "config_name": cfgname}
+    knobs0 = {"cwd": "proj", "config_arg": "rel", "threads": 2, "config_name": cfgname, "dt_unknown": bool(wm.get("dt_unknown"))}
     # --check from the project directory
     chk = scen.exec_run(wm, True, plan, knobs0, ctx)
     dg.update(chk["res"].trace_digest().encode())
@@ -221,7 +224,7 @@ def evaluate(wm, seed, base, ctx, cwds=(("outside", "rel"), ("/", "abs"))):
         runs.append(("outside", "rel", "link_conf/Breadlog.yaml"))
         runs.append(("/", "abs", "@ROOT@/outside/link_conf/Breadlog.yaml"))
     for cwd, arg, override in runs:
-        knobs = {"cwd": cwd, "config_arg": arg, "threads": 2, "config_name": cfgname}
+        knobs = {"cwd": cwd, "config_arg": arg, "threads": 2, "config_name": cfgname, "dt_unknown": bool(wm.get("dt_unknown"))}
         if override:
             knobs["config_override"] = override
             ctx.probes["config_via_symlink"] += 1
@@ -279,7 +282,7 @@ def evaluate_unreadable_dir(wm, seed, base, nth, ctx):
     plan = {"seed": seed, "perm": True, "faults": [{"from": 1, "kinds": ["OPENDIR"], "pre": base, "nth": nth, "act": "fail",
                                                     "errno": "EACCES"}]}
     cfgname = wm.get("cfg_name", "Breadlog.yaml")
-    run = scen.exec_run(wm, False, plan, {"cwd": "proj", "config_arg": "rel", "threads": 2, "config_name": cfgname}, ctx)
+    run = scen.exec_run(wm, False, plan, {"cwd": "proj", "config_arg": "rel", "threads": 2, "config_name": cfgname, "dt_unknown": bool(wm.get("dt_unknown"))}, ctx)
     res = run["res"]
     failed = [os.path.normpath(o.path) for o in res.ops if o.kind == "OPENDIR" and o.ret < 0 and o.fired != "-"]
     if not failed or res.mode != "exited":
@@ -321,7 +324,7 @@ def evaluate_mount(wm, seed, base, pick, ctx):
         d = base + "/" + d[len(base) + 1:].split("/")[0]
     plan = {"seed": seed, "perm": True, "faults": [], "mount": d}
     cfgname = wm.get("cfg_name", "Breadlog.yaml")
-    knobs = {"cwd": "proj", "config_arg": "rel", "threads": 2, "config_name": cfgname}
+    knobs = {"cwd": "proj", "config_arg": "rel", "threads": 2, "config_name": cfgname, "dt_unknown": bool(wm.get("dt_unknown"))}
     scenario = {"wm": world.wm_to_json(wm), "seed": seed, "base": base, "mount_pick": pick}
     viols = []
     run = scen.exec_run(wm, True, plan, knobs, ctx)
@@ -358,7 +361,7 @@ def evaluate_exdev(wm, seed, base, ctx):
     scope = model_scope(wm, base)
     plan = {"seed": seed, "perm": True, "faults": [{"from": 1, "kinds": ["RENAME"], "pre": "tmp/", "act": "fail", "errno": "EXDEV"}]}
     cfgname = wm.get("cfg_name", "Breadlog.yaml")
-    run = scen.exec_run(wm, False, plan, {"cwd": "proj", "config_arg": "rel", "threads": 2, "config_name": cfgname}, ctx)
+    run = scen.exec_run(wm, False, plan, {"cwd": "proj", "config_arg": "rel", "threads": 2, "config_name": cfgname, "dt_unknown": bool(wm.get("dt_unknown"))}, ctx)
     res = run["res"]
     if res.mode != "exited" or not res.fired_counts():
         return []
